@@ -1,1 +1,99 @@
 import Goflow.Spec.SflowMap
+import Goflow.Producer.Sflow
+import Goflow.Pipe
+/-!
+  C09 — sFlow samples map to the flow message as documented.
+  The producer's conversion of the *decoded* sample (model of producer_sf.go applied to what C04
+  says the decoder returns) equals the reference mapping written from the abstract sample.
+-/
+namespace Goflow.C09
+open Goflow Goflow.Spec.Sflow Goflow.Spec.SflowMap
+
+/-- records that do not carry a raw Ethernet header (those are C10's subject) -/
+def NoEthernetHeader (r : SRecord) : Prop :=
+  match r with
+  | .rawHeader p _ _ _ => p ≠ 1
+  | _ => True
+
+/-- one record: every record type of the property, and "records of other header protocols leave the
+    message otherwise intact" (only `bytes` = sampled frame length is set) -/
+theorem record_eq_ref (cfg : Option Producer.Config) (m : FlowMsg) (r : SRecord) (h : NoEthernetHeader r) :
+    Producer.applyRecord cfg m (expRecord r) = .ok (applyRecord m (r, none)) := by
+  cases r with
+  | rawHeader p fl st hd =>
+    simp only [NoEthernetHeader] at h
+    simp [Producer.applyRecord, expRecord, expData, applyRecord, h]
+  | ethernet l s d t => simp [Producer.applyRecord, expRecord, expData, applyRecord, recFormat]
+  | ipv4 l p s d sp dp f t =>
+    simp [Producer.applyRecord, expRecord, expData, applyRecord, recFormat, Producer.vNat, Producer.vBytes, Sflow.V.nat, Sflow.V.bytes]
+  | ipv6 l p s d sp dp f t =>
+    simp [Producer.applyRecord, expRecord, expData, applyRecord, recFormat, Producer.vNat, Producer.vBytes, Sflow.V.nat, Sflow.V.bytes]
+  | extSwitch a b c d =>
+    simp [Producer.applyRecord, expRecord, expData, applyRecord, recFormat, Producer.vNat, Sflow.V.nat]
+  | extRouter nh s d => simp [Producer.applyRecord, expRecord, expData, applyRecord]
+  | extGateway nh a sa spa path comm lp =>
+    cases path with
+    | none => by_cases hsa : 0 < sa <;> simp [Producer.applyRecord, expRecord, expData, applyRecord, hsa]
+    | some p =>
+      obtain ⟨t, asns⟩ := p
+      simp only [Producer.applyRecord, expRecord, expData, applyRecord, List.getD_cons_zero, List.getD_cons_succ]
+      by_cases hsa : 0 < sa <;> cases h2 : asns.getLast? <;> simp [h2, hsa]
+  | egressQueue q => simp [Producer.applyRecord, expRecord, expData, applyRecord, recFormat]
+  | acl n name d => simp [Producer.applyRecord, expRecord, expData, applyRecord]
+  | function s => simp [Producer.applyRecord, expRecord, expData, applyRecord]
+  | unknown f d => simp [Producer.applyRecord, expRecord, expData, applyRecord]
+
+/-- all records of a sample, in order (later records of the same kind win — on both sides) -/
+theorem records_eq_ref (cfg : Option Producer.Config) (m : FlowMsg) (rs : List SRecord)
+    (h : ∀ r ∈ rs, NoEthernetHeader r) :
+    Producer.applyRecords cfg (rs.map expRecord) m =
+      .ok ((rs.zip (List.replicate rs.length (none : Option Spec.Frame.Frame))).foldl applyRecord m) := by
+  induction rs generalizing m with
+  | nil => rfl
+  | cons r rs ih =>
+    simp only [List.map_cons, Producer.applyRecords, List.length_cons, List.replicate_succ, List.zip_cons_cons, List.foldl_cons]
+    rw [record_eq_ref cfg m r (h r (by simp))]
+    simp only
+    exact ih _ (fun q hq => h q (by simp [hq]))
+
+/-- a flow sample: sampling rate, interfaces, packets = 1 and the content of its records -/
+theorem sample_eq_ref (cfg : Option Producer.Config) (seq st sv : Nat) (vals : List Nat) (rs : List SRecord)
+    (hv : vals.length = 5) (h : ∀ r ∈ rs, NoEthernetHeader r) (agent : Bytes) (dgSeq recv : Nat) :
+    (Producer.convertSample cfg (expSample (.flow seq st sv vals rs))).map
+        (fun r => r.map fun m => Pipe.stampSflow recv { m with samplerAddress := agent, sequenceNum := dgSeq }) =
+      (refSample agent dgSeq recv (.flow seq st sv vals rs) (List.replicate rs.length none)).map Except.ok := by
+  match vals, hv with
+  | [a, b, c, d, e], _ =>
+    simp only [expSample, Producer.convertSample, Option.map_some, refSample]
+    rw [records_eq_ref cfg _ rs h]
+    simp [Except.map, Pipe.stampSflow, FlowMsg.empty]
+
+/-- an expanded flow sample: the interface *values* of the expanded encoding -/
+theorem expanded_sample_eq_ref (cfg : Option Producer.Config) (seq st sv : Nat) (vals : List Nat) (rs : List SRecord)
+    (hv : vals.length = 7) (h : ∀ r ∈ rs, NoEthernetHeader r) (agent : Bytes) (dgSeq recv : Nat) :
+    (Producer.convertSample cfg (expSample (.expFlow seq st sv vals rs))).map
+        (fun r => r.map fun m => Pipe.stampSflow recv { m with samplerAddress := agent, sequenceNum := dgSeq }) =
+      (refSample agent dgSeq recv (.expFlow seq st sv vals rs) (List.replicate rs.length none)).map Except.ok := by
+  match vals, hv with
+  | [a, b, c, d, e, f, g], _ =>
+    simp only [expSample, Producer.convertSample, Option.map_some, refSample]
+    rw [records_eq_ref cfg _ rs h]
+    simp [Except.map, Pipe.stampSflow, FlowMsg.empty]
+
+/-- counter samples, expanded counter samples and drop samples yield no flow message -/
+theorem non_flow_samples_yield_nothing (cfg : Option Producer.Config) (s : SSample)
+    (h : match s with | .flow .. => False | .expFlow .. => False | _ => True) :
+    Producer.convertSample cfg (expSample s) = none := by
+  cases s <;> simp_all [expSample, Producer.convertSample]
+
+/-- AS rules: destination AS = last AS of the path, next-hop AS = first; source AS falls back to the router's AS -/
+theorem as_rules (m : FlowMsg) (nh : Bytes) (a spa t : Nat) (first : Nat) (mid : List Nat) (last : Nat) (comm : List Nat) (lp : Nat) :
+    let m' := applyRecord m (.extGateway nh a 0 spa (some (t, first :: (mid ++ [last]))) comm lp, none)
+    m'.dstAs = last ∧ m'.nextHopAs = first ∧ m'.srcAs = a := by
+  have hl : (first :: (mid ++ [last])).getLast? = some last := by
+    have : first :: (mid ++ [last]) = (first :: mid) ++ [last] := by simp
+    rw [this, List.getLast?_append]
+    simp
+  simp [applyRecord, hl]
+
+end Goflow.C09
